@@ -405,8 +405,14 @@ def tie_optimizer_mirror(ctx, meta):
         prev = stages[0][1]
         for name, exprs in stages[1:]:
             if name == "restore":
+                # the last stage of the python mirror against pest_meta's own output (the Lean driver prints the six
+                # `ast::Expr` stages only; its final result is compared with pest_meta by the tie above)
+                nst += 1
                 if any(exprs[r[1]] != r[3] for r in sx[2:]):
                     py_restore_diff.append(gid)
+                    nst_bad += 1
+                    if nst_bad <= 5:
+                        ctx.tie_broken("optimizer-mirror:stages-vs-python", {"gid": gid, "stage": "restore (python mirror vs pest_meta)"})
                 continue
             nst += 1
             pass_changes[name] = pass_changes.get(name, 0) + sum(1 for k in exprs if exprs[k] != prev[k])
@@ -417,7 +423,7 @@ def tie_optimizer_mirror(ctx, meta):
                     ctx.tie_broken("optimizer-mirror:stages-vs-python", {"gid": gid, "stage": name})
     ctx.ties["optimizer-mirror"] = {"cases": nrules, "agree": nrules - nbad, "observables": ["optimized expression of every rule"], "grammars": len(gids),
                                     "grammars_by_origin": per_origin, "rules_changed_by_the_optimizer": changed, "rules_changed_per_pass": pass_changes}
-    ctx.ties["optimizer-mirror:stages-vs-python"] = {"cases": nst, "agree": nst - nst_bad, "observables": ["every rule after rotate, skip, unroll, concatenate, factor, list"]}
+    ctx.ties["optimizer-mirror:stages-vs-python"] = {"cases": nst, "agree": nst - nst_bad, "observables": ["every rule after rotate, skip, unroll, concatenate, factor, list (Lean vs python mirror) and after restore (python mirror vs pest_meta)"]}
     if py_restore_diff:
         # information (not a broken tie of the Lean mirror): opts.p_restore looks inside RestoreOnErr wrappers, pest_meta's iterator does not
         ctx.coverage.setdefault("notes", []).append({"python_mirror_restore_differs_from_pest_meta": len(py_restore_diff), "first": py_restore_diff[:8]})
